@@ -37,7 +37,7 @@ package protocols
 
 // The per-protocol body of writeDefinitions. Loop 0 prints the writer methods of step i, loop 1 the reader methods.
 //@ func writeDefinitions$1
-//@   property C07
+//@   property C07,C15,C04
 //@   requires p != nil
 //@   iteration 0: writer_guards_use_step_index: emitted("if (unlikely(state_ != %d)) {\n") >= 1 && (forall n in 0..emitted("if (unlikely(state_ != %d)) {\n") :: emittedArg("if (unlikely(state_ != %d)) {\n", n, 0, int) == i)
 //@   iteration 0: writer_advances_once_to_next: emitted("state_ = %d;\n") == 1 && emittedArg("state_ = %d;\n", 0, 0, int) == i + 1
@@ -45,4 +45,31 @@ package protocols
 //@   iteration 1: reader_guards_use_twice_index: emitted("if (unlikely(state_ != %d)) {\n") >= 1 && (forall n in 0..emitted("if (unlikely(state_ != %d)) {\n") :: emittedArg("if (unlikely(state_ != %d)) {\n", n, 0, int) == 2 * i)
 //@   iteration 1: reader_states_stay_in_step: forall n in 0..emitted("state_ = %d;\n") :: (emittedArg("state_ = %d;\n", n, 0, int) == 2 * i || emittedArg("state_ = %d;\n", n, 0, int) == 2 * i + 1 || emittedArg("state_ = %d;\n", n, 0, int) == 2 * i + 2)
 //@   iteration 1: reader_nonstream_advances: !step.IsStream() ==> emittedArg("state_ = %d;\n", emitted("state_ = %d;\n") - 1, 0, int) == 2 * (i + 1)
+//@   ensures writer_embeds_own_schema: emitted("std::string %s::schema_ = R\"(%s)\";\n\n") == 1 && emittedArg("std::string %s::schema_ = R\"(%s)\";\n\n", 0, 0, string) == common.AbstractWriterName(p) && emittedArg("std::string %s::schema_ = R\"(%s)\";\n\n", 0, 1, string) == dsl.GetProtocolSchemaString(p, symbolTable)
+//@   ensures reader_shares_writer_schema: emitted("std::string %s::schema_ = %s::schema_;\n\n") == 1 && emittedArg("std::string %s::schema_ = %s::schema_;\n\n", 0, 0, string) == common.AbstractReaderName(p) && emittedArg("std::string %s::schema_ = %s::schema_;\n\n", 0, 1, string) == common.AbstractWriterName(p)
+//@   ensures reader_shares_previous_schemas: emitted("std::vector<std::string> %s::previous_schemas_ = %s::previous_schemas_;\n\n") == 1 && emittedArg("std::vector<std::string> %s::previous_schemas_ = %s::previous_schemas_;\n\n", 0, 1, string) == common.AbstractWriterName(p)
 //@   ensures reader_close_expects_all_steps: emitted("if (!skip_completed_check_ && unlikely(state_ != %d)) {\n") == 1 && emittedArg("if (!skip_completed_check_ && unlikely(state_ != %d)) {\n", 0, 0, int) == 2 * old(len(p.Sequence))
+
+// ---- C15 / C05 / C04: version <-> schema tables printed into the protocol base classes ----------------------------
+// previous_schemas_ has one entry per listed version, in the order of ns.Versions: the recorded previous schema when the
+// protocol changed in that version, the current schema otherwise.
+//@ func writeDefinitions$1@emits:"R\"(%s)\",\n"
+//@   property C15,C05
+//@   iteration 0: one_entry_per_version: emitted("R\"(%s)\",\n") + emitted("%s::schema_,\n") == 1
+//@   iteration 0: changed_version_uses_its_previous_schema: p.Versions[versionLabel] != nil ==> emitted("R\"(%s)\",\n") == 1 && emittedArg("R\"(%s)\",\n", 0, 0, string) == p.Versions[versionLabel].PreviousSchema
+//@   iteration 0: unchanged_version_uses_current_schema: p.Versions[versionLabel] == nil ==> emitted("%s::schema_,\n") == 1
+
+// SchemaFromVersion: version label k maps to previous_schemas_[k].
+//@ func writeDefinitions$1@emits:"case Version::%s: return previous_schemas_[%d]; break;\n"
+//@   property C15,C05
+//@   iteration 0: label_and_index_aligned: emitted("case Version::%s: return previous_schemas_[%d]; break;\n") == 1 && emittedArg("case Version::%s: return previous_schemas_[%d]; break;\n", 0, 0, string) == versionLabel && emittedArg("case Version::%s: return previous_schemas_[%d]; break;\n", 0, 1, int) == i
+//@   ensures current_maps_to_current_schema: emitted("case Version::Current: return %s::schema_; break;\n") == 1
+//@   ensures unknown_version_throws: emitted("default: throw std::runtime_error(\"The version does not correspond to any schema supported by protocol %s.\");\n") == 1
+
+// VersionFromSchema: the current schema is tested first, then previous_schemas_[k] -> version label k for every k, and a
+// schema that matches none of them is refused unconditionally.
+//@ func writeDefinitions$1@emits:"else if (schema == previous_schemas_[%d]) {\n"
+//@   property C15,C05
+//@   iteration 0: index_and_label_aligned: emitted("else if (schema == previous_schemas_[%d]) {\n") == 1 && emittedArg("else if (schema == previous_schemas_[%d]) {\n", 0, 0, int) == i && emitted("return Version::%s;\n") == 1 && emittedArg("return Version::%s;\n", 0, 0, string) == versionLabel
+//@   ensures current_schema_first: emitted("if (schema == %s::schema_) {\n") == 1 && emitted("return Version::Current;\n") == 1
+//@   ensures foreign_schema_refused: emitted("throw std::runtime_error(\"The schema does not match any version supported by protocol %s.\");\n") == 1
